@@ -55,7 +55,7 @@ func run(r *ev.Run) {
 		i := i
 		jobs = append(jobs, func() { tamperB(r, root, i) })
 	}
-	for i := 0; i < r.Pick(6, 72); i++ {
+	for i := 0; i < r.Pick(7, 77); i++ {
 		i := i
 		jobs = append(jobs, func() { runHistory(r, root, i) })
 	}
@@ -111,6 +111,7 @@ func run(r *ev.Run) {
 		"inside-compaction/packed-uploaded-deletions-partial",
 		"inside-compaction/packed-uploaded-deletions-done-unacked",
 		"inside-compaction/before-packed-upload",
+		"after-failed-packed-upload",
 		"final/after-compaction",
 		"final/after-startup-compaction")
 }
